@@ -62,6 +62,42 @@ pub fn tame() -> BoxedStrategy<String> {
         .boxed()
 }
 
+/// look-alikes whose case folding / digit class maps them onto ASCII
+pub const LOOKALIKES: &[(char, &str)] = &[
+    ('k', "\u{212A}"), ('K', "\u{212A}"), ('s', "\u{017F}"), ('S', "\u{017F}"), ('i', "\u{0130}"), ('I', "\u{0130}"), ('i', "\u{0131}"),
+    ('0', "０"), ('1', "１"), ('3', "٣"), ('5', "５"), ('a', "а"), ('e', "е"), ('o', "о"), ('c', "с"), ('p', "р"),
+];
+/// pad `base` (a valid version string) with extra dot-separated identifiers appended by `joiner`
+/// until it is at least `min_len` bytes long, then (optionally) replace one ASCII character that
+/// has a look-alike by it.  Returns (string, substituted?)
+pub fn lengthen_and_disguise(base: &str, first_joiner: &str, min_len: usize, words: &[&str], pick: u64, disguise: bool) -> (String, bool) {
+    let mut s = base.to_string();
+    let mut k = pick;
+    let mut first = true;
+    while s.len() < min_len {
+        k = k.wrapping_mul(6364136223846793005).wrapping_add(1442695040888963407);
+        s.push_str(if first { first_joiner } else { "." });
+        first = false;
+        s.push_str(words[(k >> 33) as usize % words.len()]);
+    }
+    if !disguise {
+        return (s, false);
+    }
+    let cands: Vec<(usize, &str)> = s.char_indices().filter_map(|(i, c)| {
+        let alts: Vec<&str> = LOOKALIKES.iter().filter(|l| l.0 == c).map(|l| l.1).collect();
+        if alts.is_empty() { None } else { Some((i, alts[(k >> 20) as usize % alts.len()])) }
+    }).collect();
+    if cands.is_empty() {
+        return (s, false);
+    }
+    let (i, rep) = cands[(k >> 7) as usize % cands.len()];
+    let mut out = String::with_capacity(s.len() + 4);
+    out.push_str(&s[..i]);
+    out.push_str(rep);
+    out.push_str(&s[i + 1..]);
+    (out, true)
+}
+
 /// arbitrary Unicode strings (no NUL)
 pub fn unicode(max: usize) -> BoxedStrategy<String> {
     proptest::collection::vec(
